@@ -28,6 +28,8 @@ var c10Good = []string{
 	`println(catch(for i9 = 2 { i9 = "a" }).err)`, // observes whether top level loops still get a register
 	`println(catch(rec(14)).value)`, // a call whose frames are in flight when the CANCEL inputs below are cut off
 	`DEPTHPROBE`, // replaced by the deepest recursion that still fits under MaxDepth: fails if any depth level leaked
+	// an input that is itself cut off inside its own functions: its error text, stack included, is compared
+	`CANCEL:50:ob2 = func(n) { if n == 0 { 0 } else { 1 + self(n - 1) } }; ob1 = func() { ob2(5) }; println(ob1())`,
 }
 
 // failing inputs that complete no side effect. "CTX:" marks inputs run under an already cancelled context.
